@@ -86,6 +86,80 @@ def _szc(e):
     return T().visit(clone(e))
 
 
+def rule_format_render(ck, m, rid):
+    """Shape invariants of the old-API padding (shared with C17.R3: the urwid canvas re-derives the same split)."""
+    fr = m.get(CM, "BaseImage._format_render")
+    COLS, LINES_ = "self.rendered_size[0]", "self.rendered_size[1]"
+    sums = emit.summaries(fr)
+    ck.expect(len(sums) == 1, f"_format_render: expected one return, found {len(sums)}")
+    rp = find_exprs("render.replace('\\n', $f)", body_walk(fr))
+    ck.expect(len(rp) == 1, "_format_render: `render.replace('\\n', ...)` not recognised")
+    n_cases = 0
+    if len(sums) == 1 and len(rp) == 1:
+        ret, facts0, term = sums[0]
+        rep_term = emit.Builder(fr).expr(rp[0][1]["f"])
+        cs = emit.cases(term, facts0, limit=8)
+        ck.expect(cs is not None, "_format_render: too many free conditions")
+        sp = lambda a_: isinstance(a_, emit.Lit) and a_.text == " "
+
+        def P(src):
+            return affine.poly(ast.parse(src, mode="eval").body)
+        for f, t in cs or []:
+            wide, tall = f.get(f"width > {COLS}"), f.get(f"height > {LINES_}")
+            if wide is None or tall is None or not (wide or tall):
+                continue
+            its = t.items if isinstance(t, emit.Seq) else [t]
+            k = next((i for i, x in enumerate(its) if isinstance(x, emit.Sym) and x.text.startswith("render")), None)
+            ck.expect(k is not None, f"_format_render: the render text is not a top-level fragment of the output shape `{repr(t)[:120]}`")
+            if k is None:
+                continue
+            n_cases += 1
+            tag = ", ".join(f"{a_}={b_}" for a_, b_ in sorted(f.items()))
+            pre, post = its[:k], its[k + 1:]
+            has_nl = lambda x: any(emit.is_nl(a_) for a_ in emit.atoms(x))
+            top, left = emit.Seq([x for x in pre if has_nl(x)]), emit.Seq([x for x in pre if not has_nl(x)])
+            bottom, right = emit.Seq([x for x in post if has_nl(x)]), emit.Seq([x for x in post if not has_nl(x)])
+            nl_, nr_ = emit.count(left, sp), emit.count(right, sp)
+            nt_, nb_ = emit.count(top, emit.is_nl), emit.count(bottom, emit.is_nl)
+            ck.expect(None not in (nl_, nr_, nt_, nb_), f"_format_render: padding amounts not determined in case [{tag}]")
+            if None in (nl_, nr_, nt_, nb_):
+                continue
+            if wide:
+                n = P(f"width - {COLS}")
+                ok = affine._add(nl_, nr_) == n
+                if f.get("h_align == '<'"):
+                    ok = ok and not nl_
+                elif f.get("h_align == '>'"):
+                    ok = ok and not nr_
+                else:
+                    ok = ok and nl_ == P(f"(width - {COLS}) // 2")
+                ck.ob(rid, ret, ok, f"_format_render [{tag}]: left + right padding must be width - cols (left aligned: all right; right aligned: all left; centred: left = n//2, right = n - left); "
+                      f"found left={affine.show(nl_)}, right={affine.show(nr_)}", stmt=f"_format_render: horizontal split [{tag}]")
+                rt_ = emit.specialise(rep_term, f)
+                rits = rt_.items if isinstance(rt_, emit.Seq) else [rt_]
+                kk = next((i for i, x in enumerate(rits) if emit.is_nl(x)), None)
+                okr = kk is not None and sum(1 for x in rits if emit.is_nl(x)) == 1 and repr(emit.Seq(rits[:kk])) == repr(right) and repr(emit.Seq(rits[kk + 1:])) == repr(left)
+                ck.ob(rid, ret, okr, f"_format_render [{tag}]: every line gets the right padding before and the left padding after its newline; found `{repr(rt_)[:100]}`", stmt=f"_format_render: per-line padding [{tag}]")
+            else:
+                ck.ob(rid, ret, not nl_ and not nr_, f"_format_render [{tag}]: no horizontal padding when the width is not larger", stmt=f"_format_render: no horizontal padding [{tag}]")
+            if tall:
+                n = P(f"height - {LINES_}")
+                ok = affine._add(nt_, nb_) == n
+                if f.get("v_align == '^'"):
+                    ok = ok and not nt_
+                elif f.get("v_align == '_'"):
+                    ok = ok and not nb_
+                else:
+                    ok = ok and nt_ == P(f"(height - {LINES_}) // 2")
+                st_, sb_ = emit.count(top, sp), emit.count(bottom, sp)
+                ok = ok and st_ == affine._mul(nt_, P("width")) and sb_ == affine._mul(nb_, P("width"))
+                ck.ob(rid, ret, ok, f"_format_render [{tag}]: top + bottom padding lines must be height - lines, each `width` spaces wide (top aligned: all below; bottom: all above; middle: top = n//2); "
+                      f"found top={affine.show(nt_)}, bottom={affine.show(nb_)}", stmt=f"_format_render: vertical split [{tag}]")
+            else:
+                ck.ob(rid, ret, not nt_ and not nb_, f"_format_render [{tag}]: no vertical padding when the height is not larger", stmt=f"_format_render: no vertical padding [{tag}]")
+    ck.expect(n_cases >= 12, f"_format_render: expected >= 12 padded cases, found {n_cases}")
+
+
 def run(ck, m):
     # summary of _init_render_: its second result is sanitised
     ir = m.variants(RN, "Renderable._init_render_")[-1]
@@ -329,76 +403,7 @@ def run(ck, m):
         ck.ob("R5", enclosing_stmt(c), len(gs) == 1 and gs[0][1] is False and cx(trace(f, gs[0][0])) == want,
               f"{q}: the frame is padded iff its padded size (from the same padding and the frame's own size) differs from its render size; found condition(s) {[(norm(trace(f, t))[:90], b_) for t, b_ in gs]}",
               stmt=f"{q}: pads iff sizes differ, padded size computed from the frame")
-    fr = m.get(CM, "BaseImage._format_render")
-    COLS, LINES_ = "self.rendered_size[0]", "self.rendered_size[1]"
-    sums = emit.summaries(fr)
-    ck.expect(len(sums) == 1, f"_format_render: expected one return, found {len(sums)}")
-    rp = find_exprs("render.replace('\\n', $f)", body_walk(fr))
-    ck.expect(len(rp) == 1, "_format_render: `render.replace('\\n', ...)` not recognised")
-    n_cases = 0
-    if len(sums) == 1 and len(rp) == 1:
-        ret, facts0, term = sums[0]
-        rep_term = emit.Builder(fr).expr(rp[0][1]["f"])
-        cs = emit.cases(term, facts0, limit=8)
-        ck.expect(cs is not None, "_format_render: too many free conditions")
-        sp = lambda a_: isinstance(a_, emit.Lit) and a_.text == " "
-
-        def P(src):
-            return affine.poly(ast.parse(src, mode="eval").body)
-        for f, t in cs or []:
-            wide, tall = f.get(f"width > {COLS}"), f.get(f"height > {LINES_}")
-            if wide is None or tall is None or not (wide or tall):
-                continue
-            its = t.items if isinstance(t, emit.Seq) else [t]
-            k = next((i for i, x in enumerate(its) if isinstance(x, emit.Sym) and x.text.startswith("render")), None)
-            ck.expect(k is not None, f"_format_render: the render text is not a top-level fragment of the output shape `{repr(t)[:120]}`")
-            if k is None:
-                continue
-            n_cases += 1
-            tag = ", ".join(f"{a_}={b_}" for a_, b_ in sorted(f.items()))
-            pre, post = its[:k], its[k + 1:]
-            has_nl = lambda x: any(emit.is_nl(a_) for a_ in emit.atoms(x))
-            top, left = emit.Seq([x for x in pre if has_nl(x)]), emit.Seq([x for x in pre if not has_nl(x)])
-            bottom, right = emit.Seq([x for x in post if has_nl(x)]), emit.Seq([x for x in post if not has_nl(x)])
-            nl_, nr_ = emit.count(left, sp), emit.count(right, sp)
-            nt_, nb_ = emit.count(top, emit.is_nl), emit.count(bottom, emit.is_nl)
-            ck.expect(None not in (nl_, nr_, nt_, nb_), f"_format_render: padding amounts not determined in case [{tag}]")
-            if None in (nl_, nr_, nt_, nb_):
-                continue
-            if wide:
-                n = P(f"width - {COLS}")
-                ok = affine._add(nl_, nr_) == n
-                if f.get("h_align == '<'"):
-                    ok = ok and not nl_
-                elif f.get("h_align == '>'"):
-                    ok = ok and not nr_
-                else:
-                    ok = ok and nl_ == P(f"(width - {COLS}) // 2")
-                ck.ob("R5", ret, ok, f"_format_render [{tag}]: left + right padding must be width - cols (left aligned: all right; right aligned: all left; centred: left = n//2, right = n - left); "
-                      f"found left={affine.show(nl_)}, right={affine.show(nr_)}", stmt=f"_format_render: horizontal split [{tag}]")
-                rt_ = emit.specialise(rep_term, f)
-                rits = rt_.items if isinstance(rt_, emit.Seq) else [rt_]
-                kk = next((i for i, x in enumerate(rits) if emit.is_nl(x)), None)
-                okr = kk is not None and sum(1 for x in rits if emit.is_nl(x)) == 1 and repr(emit.Seq(rits[:kk])) == repr(right) and repr(emit.Seq(rits[kk + 1:])) == repr(left)
-                ck.ob("R5", ret, okr, f"_format_render [{tag}]: every line gets the right padding before and the left padding after its newline; found `{repr(rt_)[:100]}`", stmt=f"_format_render: per-line padding [{tag}]")
-            else:
-                ck.ob("R5", ret, not nl_ and not nr_, f"_format_render [{tag}]: no horizontal padding when the width is not larger", stmt=f"_format_render: no horizontal padding [{tag}]")
-            if tall:
-                n = P(f"height - {LINES_}")
-                ok = affine._add(nt_, nb_) == n
-                if f.get("v_align == '^'"):
-                    ok = ok and not nt_
-                elif f.get("v_align == '_'"):
-                    ok = ok and not nb_
-                else:
-                    ok = ok and nt_ == P(f"(height - {LINES_}) // 2")
-                st_, sb_ = emit.count(top, sp), emit.count(bottom, sp)
-                ok = ok and st_ == affine._mul(nt_, P("width")) and sb_ == affine._mul(nb_, P("width"))
-                ck.ob("R5", ret, ok, f"_format_render [{tag}]: top + bottom padding lines must be height - lines, each `width` spaces wide (top aligned: all below; bottom: all above; middle: top = n//2); "
-                      f"found top={affine.show(nt_)}, bottom={affine.show(nb_)}", stmt=f"_format_render: vertical split [{tag}]")
-            else:
-                ck.ob("R5", ret, not nt_ and not nb_, f"_format_render [{tag}]: no vertical padding when the height is not larger", stmt=f"_format_render: no vertical padding [{tag}]")
-    ck.expect(n_cases >= 12, f"_format_render: expected >= 12 padded cases, found {n_cases}")
+    rule_format_render(ck, m, "R5")
     pp = m.get(PD, "Padding.pad")
     sums = emit.summaries(pp)
     rp = find_exprs("render.replace('\\n', $f)", body_walk(pp))
